@@ -90,7 +90,7 @@ var uriPool = []string{"/", "/a", "/a/b/c", "/a?x=1&y=2", "/p%20q", "/a%2Fb?z=%2
 var methodPool = []string{"GET", "POST", "PUT", "DELETE", "PATCH", "HEAD", "OPTIONS", "FOO", "get"}
 
 func genCase(r *vh.Rand, paused bool) string {
-	format := r.Pick([]string{"uri", "uripost", "jsonline", "raw"})
+	format := r.Pick([]string{"uri", "uripost", "jsonline", "raw", "uripost", "jsonarr"})
 	ssl := r.Chance(1, 3)
 	ka := r.Chance(2, 3)
 	inst := r.Range(1, 4)
@@ -122,7 +122,7 @@ func genCase(r *vh.Rand, paused bool) string {
 		if format == "uripost" {
 			method = "POST"
 		}
-		if format == "jsonline" || format == "raw" {
+		if format == "jsonline" || format == "jsonarr" || format == "raw" {
 			method = r.Pick(methodPool)
 		}
 		uri := r.Pick(uriPool)
@@ -137,7 +137,7 @@ func genCase(r *vh.Rand, paused bool) string {
 				host = "example.org" // the shared decoy server belongs to the sequential cases
 			}
 			scheme = "h"
-			if format != "jsonline" && r.Chance(1, 3) {
+			if format != "jsonline" && format != "jsonarr" && r.Chance(1, 3) {
 				scheme = "s"
 			}
 		}
@@ -147,7 +147,7 @@ func genCase(r *vh.Rand, paused bool) string {
 		}
 		var body []byte
 		if format != "uri" && method != "HEAD" {
-			body = genBody(r, format == "jsonline")
+			body = genBody(r, format == "jsonline" || format == "jsonarr")
 		}
 		var hs []kv
 		if !fileHdr {
@@ -155,7 +155,7 @@ func genCase(r *vh.Rand, paused bool) string {
 			for n := r.Intn(5); n > 0; n-- {
 				h := genKV(r, used)
 				ck := textproto.CanonicalMIMEHeaderKey(h.k)
-				if seen[ck] && (format == "jsonline" || ck == "Host" || ck == "User-Agent") {
+				if seen[ck] && (format == "jsonline" || format == "jsonarr" || ck == "Host" || ck == "User-Agent") {
 					// a JSON object has one value per (canonical) key; a request has one Host; net/http sends
 					// only the first User-Agent value
 					continue
@@ -184,14 +184,21 @@ func genCase(r *vh.Rand, paused bool) string {
 		cfg = append(cfg, encKV(h))
 	}
 	// what the target answers (the property speaks of the request; the answer must not matter, incl. for connection reuse)
-	resp := fmt.Sprintf("%d:%d", r.PickInt([]int{200, 200, 200, 204, 301, 404, 500}), r.PickInt([]int{0, 2, 2, 1000, 70000, 300000, 1200000}))
+	// passes > 1 with preload / an array file hands the SAME decoded entries out again, with several instances and a slow
+	// target to more than one instance at once
+	passes := r.PickInt([]int{1, 1, 2, 3})
+	delay := r.PickInt([]int{0, 0, 0, 15})
+	if paused {
+		passes, delay = 1, 0
+	}
+	resp := fmt.Sprintf("%d:%d:%d", r.PickInt([]int{200, 200, 200, 204, 301, 404, 500}), r.PickInt([]int{0, 2, 2, 1000, 70000, 300000, 1200000}), delay)
 	pools := r.PickInt([]int{1, 1, 1, 2, 3})
-	late := r.Chance(1, 3)
+	late := r.Chance(1, 3) && !paused
 	pause := 0
 	if paused {
 		pause = r.PickInt([]int{1300, 1300, 1600})
 	}
-	line := fmt.Sprintf("wire %s %s %s %d %s %s %s %d %s %d %d", format, vh.B(ssl), vh.B(ka), inst, tgt, vh.B(r.Chance(1, 3)), resp, pools, vh.B(late), pause, len(cfg))
+	line := fmt.Sprintf("wire %s %s %s %d %s %s %s %d %s %d %d %d", format, vh.B(ssl), vh.B(ka), inst, tgt, vh.B(r.Chance(1, 3)), resp, pools, vh.B(late), pause, passes, len(cfg))
 	if len(cfg) > 0 {
 		line += " " + strings.Join(cfg, " ")
 	}
@@ -208,10 +215,9 @@ func gen(r *vh.Rand, tier string) []string {
 	for i := 0; i < n; i++ {
 		out = append(out, genCase(r, i%100 == 50)) // 1% of the cases pause between the requests
 	}
-	// transport construction: every TransportConfig field must land in the same-named field of the http.Transport
-	for i := 0; i < n/20+3; i++ {
-		out = append(out, fmt.Sprintf("tr %d %s %s %d %d %d %d %d", r.PickInt([]int{0, 1000, 1500, 700}), vh.B(r.Bool()), vh.B(r.Bool()), r.Intn(5), r.Intn(7),
-			r.PickInt([]int{0, 90000, 1000, 12345}), r.PickInt([]int{0, 500, 2222}), r.PickInt([]int{0, 1000, 90000, 777})))
+	// transport / dialer construction: every config field must land in the same-named field of the built object
+	for i := 0; i < 6; i++ {
+		out = append(out, fmt.Sprintf("tr %d", r.Intn(4096)))
 	}
 	return out
 }
